@@ -32,8 +32,12 @@ func c21Run(r *simkit.Run) {
 
 	// block sizes: small, more than one block-write batch (128), more than one permanent-merge batch (333)
 	sizes := make([]int, nblocks)
+	aligned := make([]bool, nblocks) // the number of records is a multiple of the block-write batch (128), or one off
+
 	for i := range sizes {
 		switch r.Choose(6) {
+		case 4:
+			aligned[i] = true
 		case 0:
 			sizes[i] = 140
 		case 1, 2:
@@ -91,6 +95,11 @@ func c21Run(r *simkit.Run) {
 
 			if sizes[i] > 0 {
 				gen.manyKeys = sizes[i]
+			}
+
+			gen.alignRecords = 0
+			if aligned[i] && sizes[i] == 0 {
+				gen.alignRecords = 128
 			}
 
 			b := gen.blockN(h, sizes[i])
@@ -270,7 +279,7 @@ func init() {
 		Run:         c21Run,
 		Real:        []string{"isaacdatabase.LeveldbBlockWrite/TempLeveldb/Center/LeveldbPermanent (block write, temp merge marker, parallel permanent merge, loadTemps, start-up MergeAllPermanent)", "leveldbstorage", "goleveldb recovery over simdisk"},
 		Stub:        []string{"disk: simdisk (operation log; rebuild at any operation in three crash modes)"},
-		Rule:        "each run draws a history of 1-4 blocks (small, >128 states, >333 states) with permanent merges; the kernel decides the completion order of the parallel merge batches. Then every disk-operation index inside every block-write and merge phase is a crash point, in three modes (all completed ops; op k torn to a prefix; everything after each file's last Sync dropped); when a history has more points than the budget (60 quick / 400 thorough) a tape-chosen sample is taken (probe crash_points_sampled vs crash_points_exhaustive). After each crash the storage is re-opened with launch's sequence and every read must equal the chain up to the visible last height; acknowledged blocks must survive process crashes. distinct = event-log hash",
+		Rule:        "each run draws a history of 1-4 blocks (small, >128 states, >333 states, or padded so that the number of records is a multiple of the 128-record block-write batch or one off it) with permanent merges; the kernel decides the completion order of the parallel merge batches. Then every disk-operation index inside every block-write and merge phase is a crash point, in three modes (all completed ops; op k torn to a prefix; everything after each file's last Sync dropped); when a history has more points than the budget (60 quick / 400 thorough) a tape-chosen sample is taken (probe crash_points_sampled vs crash_points_exhaustive). After each crash the storage is re-opened with launch's sequence and every read must equal the chain up to the visible last height; acknowledged blocks must survive process crashes. distinct = event-log hash",
 		Assumptions: []string{"a failed reopen is counted (reopen_errors) and is not this property's violation", "power loss may lose acknowledged blocks (goleveldb does not sync its journal per write); only atomicity is judged there"},
 	})
 }
